@@ -6,7 +6,6 @@ import (
 	"fmt"
 	"math"
 
-	"github.com/nspcc-dev/neo-go/pkg/core/state"
 	"github.com/nspcc-dev/neo-go/pkg/neotest"
 	"github.com/nspcc-dev/neo-go/pkg/smartcontract"
 	"github.com/nspcc-dev/neo-go/pkg/smartcontract/manifest"
@@ -65,18 +64,16 @@ func updateFixture(name string) *tableEntry {
 	return &tableEntry{setup: func(w *world, k int) *fixture {
 		w.seq++
 		mname := fmt.Sprintf("%s #%d", w.old[name].Manifest.Name, w.seq)
-		om := *w.old[name].Manifest
-		om.Name = mname
-		oc := &neotest.Contract{NEF: w.old[name].NEF, Manifest: &om,
-			Hash: state.CreateContractHash(w.c.E.Validator.ScriptHash(), w.old[name].NEF.Checksum, mname)}
-		w.c.Deploy(oc, w.deployArgs(name))
-		nm := *w.cur[name].Manifest
-		nm.Name = mname
-		mb, err := json.Marshal(&nm)
+		args := w.deployArgs(name)
+		if name == "nns" {
+			args = nil
+		}
+		h := w.deploy(renamed(w.old[name], mname), args)
+		mb, err := json.Marshal(renamed(w.cur[name], mname).Manifest)
 		require.NoError(w.t, err)
 		nb, err := w.cur[name].NEF.Bytes()
 		require.NoError(w.t, err)
-		return plain(oc.Hash, "update", atoms{}, nb, mb, nil)
+		return plain(h, "update", atoms{}, nb, mb, nil)
 	}}
 }
 
@@ -364,12 +361,8 @@ func init() {
 	})
 	reg("netmap.subscribeForNewEpoch/1/", func(w *world, k int) *fixture {
 		w.seq++
-		mname := fmt.Sprintf("%s #%d", w.sub.Manifest.Name, w.seq)
-		m := *w.sub.Manifest
-		m.Name = mname
-		sc := &neotest.Contract{NEF: w.sub.NEF, Manifest: &m, Hash: state.CreateContractHash(w.c.E.Validator.ScriptHash(), w.sub.NEF.Checksum, mname)}
-		w.c.Deploy(sc, nil)
-		return plain(w.h["netmap"], "subscribeForNewEpoch", atoms{}, sc.Hash)
+		h := w.deploy(renamed(w.sub, fmt.Sprintf("%s #%d", w.sub.Manifest.Name, w.seq)), nil)
+		return plain(w.h["netmap"], "subscribeForNewEpoch", atoms{}, h)
 	})
 	reg("netmap.updateSnapshotCount/1/", func(w *world, k int) *fixture {
 		cnt := int64(0)
